@@ -14,6 +14,7 @@ import (
 	"sort"
 	"strconv"
 	"strings"
+	"sync"
 	"unicode"
 	"unicode/utf8"
 
@@ -184,6 +185,7 @@ var preds = map[string]func(any) bool{
 }
 
 func keyOf(v any) any {
+	userCallback()
 	// comparable key of an arbitrary drawn value
 	rv := reflect.ValueOf(v)
 	if !rv.IsValid() {
@@ -204,7 +206,9 @@ type GenEnv struct {
 	run   *Runner
 }
 
-func (e *GenEnv) Build(s *GenSpec) *Built {
+var buildMu sync.Mutex
+
+func (e *GenEnv) buildLocked(s *GenSpec) *Built {
 	if s == nil {
 		panic("nil generator spec")
 	}
@@ -218,6 +222,15 @@ func (e *GenEnv) Build(s *GenSpec) *Built {
 		e.cache[s] = b
 	}
 	return b
+}
+
+func (e *GenEnv) Build(s *GenSpec) *Built {
+	if s == nil {
+		panic("nil generator spec")
+	}
+	buildMu.Lock()
+	defer buildMu.Unlock()
+	return e.buildLocked(s)
 }
 
 func fmtVal(v any) string { return Digest(fmt.Sprintf("%#v", v)) }
@@ -273,6 +286,7 @@ func deepFmt(v reflect.Value) string {
 }
 
 func (e *GenEnv) build(s *GenSpec) *Built {
+	// (called with buildMu held; nested builds go through buildLocked)
 	if base, variant, ok := splitIntKind(s.K); ok {
 		ki := IntKinds[base]
 		if ki.signed {
@@ -383,7 +397,7 @@ func (e *GenEnv) build(s *GenSpec) *Built {
 		case "StringN":
 			g = rapid.StringN(minR, maxR, maxB).AsAny()
 		case "StringOf", "StringOfN":
-			elem = e.Build(s.Elem)
+			elem = e.buildLocked(s.Elem)
 			rg := rapid.Map(elem.G, func(v any) rune { return v.(rune) })
 			if s.K == "StringOf" {
 				g = rapid.StringOf(rg).AsAny()
@@ -419,7 +433,7 @@ func (e *GenEnv) build(s *GenSpec) *Built {
 			return F{"c": "pred", "ok": ok && re.Match(b)}
 		}}
 	case "SliceOf", "SliceOfN", "SliceOfDistinct", "SliceOfNDistinct":
-		elem := e.Build(s.Elem)
+		elem := e.buildLocked(s.Elem)
 		minL, maxL := optInt(s.MinLen, -1), optInt(s.MaxLen, -1)
 		distinct := strings.HasSuffix(s.K, "Distinct")
 		var g *rapid.Generator[[]any]
@@ -444,16 +458,16 @@ func (e *GenEnv) build(s *GenSpec) *Built {
 			return F{"c": "coll", "typeok": ok, "len": len(sl), "minLen": minL, "maxLen": maxL, "distinct": distinct, "keys": keys, "elemok": elemok}
 		}}
 	case "MapOf", "MapOfN", "MapOfValues", "MapOfNValues":
-		val := e.Build(s.Val)
+		val := e.buildLocked(s.Val)
 		minL, maxL := optInt(s.MinLen, -1), optInt(s.MaxLen, -1)
 		var g *rapid.Generator[map[any]any]
 		var key *Built
 		switch s.K {
 		case "MapOf":
-			key = e.Build(s.Key)
+			key = e.buildLocked(s.Key)
 			g = rapid.MapOf(rapid.Map(key.G, keyOf), val.G)
 		case "MapOfN":
-			key = e.Build(s.Key)
+			key = e.buildLocked(s.Key)
 			g = rapid.MapOfN(rapid.Map(key.G, keyOf), val.G, minL, maxL)
 		case "MapOfValues":
 			g = rapid.MapOfValues(val.G, keyOf)
@@ -503,7 +517,7 @@ func (e *GenEnv) build(s *GenSpec) *Built {
 		subs := make([]*Built, len(s.Gens))
 		gs := make([]AnyG, len(s.Gens))
 		for i, x := range s.Gens {
-			subs[i] = e.Build(x)
+			subs[i] = e.buildLocked(x)
 			gs[i] = subs[i].G
 		}
 		return &Built{G: rapid.OneOf(gs...), Desc: s.K, Check: func(v any) F {
@@ -514,7 +528,7 @@ func (e *GenEnv) build(s *GenSpec) *Built {
 			return F{"c": "pred", "ok": any_}
 		}}
 	case "Ptr":
-		elem := e.Build(s.Elem)
+		elem := e.buildLocked(s.Elem)
 		return &Built{G: rapid.Ptr(elem.G, s.AllowNil).AsAny(), Desc: s.K, Check: func(v any) F {
 			p, ok := v.(*any)
 			if !ok {
@@ -526,16 +540,17 @@ func (e *GenEnv) build(s *GenSpec) *Built {
 			return F{"c": "pred", "ok": contractOK(elem.Check(*p))}
 		}}
 	case "Filter":
-		elem := e.Build(s.Elem)
-		pred := preds[s.Pred]
+		elem := e.buildLocked(s.Elem)
+		pred0 := preds[s.Pred]
+		pred := func(v any) bool { userCallback(); return pred0(v) }
 		return &Built{G: elem.G.Filter(pred), Desc: s.K, Check: func(v any) F {
 			f := elem.Check(v)
 			f["filterok"] = pred(v)
 			return f
 		}}
 	case "Map":
-		elem := e.Build(s.Elem)
-		return &Built{G: rapid.Map(elem.G, func(v any) any { return v }), Desc: s.K, Check: elem.Check}
+		elem := e.buildLocked(s.Elem)
+		return &Built{G: rapid.Map(elem.G, func(v any) any { userCallback(); return v }), Desc: s.K, Check: elem.Check}
 	case "Deferred":
 		elem := s.Elem
 		var inner *Built
@@ -546,9 +561,10 @@ func (e *GenEnv) build(s *GenSpec) *Built {
 			return inner.Check(v)
 		}}
 	case "Custom":
-		ret := e.Build(s.Elem)
+		ret := e.buildLocked(s.Elem)
 		body := s.Body
 		return &Built{G: rapid.Custom(func(t *rapid.T) any {
+			userCallback()
 			return e.run.customBody(t, body, ret)
 		}), Desc: s.K, Check: ret.Check}
 	case "Make":
